@@ -51,6 +51,22 @@ func zz20Hole(n int) []byte {
 
 const zz20Max = 10000
 
+// zz20Want is the reference verdict for the tower b = open^a hole close^a.
+// Every outer level wraps exactly one value, so b is a JSON text iff its innermost level
+// around the hole is one (decided by the reference recogniser zzspec.ValidText), and its
+// nesting depth is a-1 plus the depth of that innermost text: within the limit of 10000 iff the
+// innermost text is valid under the limit 10000-(a-1). With fullRef the recursive reference
+// recogniser additionally runs on the whole text and must agree.
+func zz20Want(b []byte, shape, a int, h []byte, strict, uniq, fullRef bool) (want, wantNoLimit bool) {
+	inner := zz20Deep(shape, a-1, a, h)
+	wantNoLimit = zzspec.ValidText(inner, strict, uniq, zz20Max)
+	want = zz20Max-(a-1) >= 1 && zzspec.ValidText(inner, strict, uniq, zz20Max-(a-1))
+	if fullRef {
+		vrt.Assert("C20/depth/reference-models-agree", want == zzspec.ValidText(b, strict, uniq, zz20Max))
+	}
+	return want, wantNoLimit
+}
+
 // zz20Pick returns v, or a solver-chosen value in 0..k-1 when v < 0.
 func zz20Pick(name string, v, k int) int {
 	if v >= 0 {
@@ -65,16 +81,13 @@ func zz20Pick(name string, v, k int) int {
 // op: 0 ReadToken loop, 1 ReadValue loop, 2 SkipValue loop, 3 Value.IsValid,
 // 4 the first a/2 levels token by token, then ReadValue (a even) / SkipValue (a odd) of the
 // remaining tower, then tokens.
-func VerifC20DepthRead(op, shape, aLo, aHi, holeLen int, allowDup bool) {
+func VerifC20DepthRead(op, shape, aLo, aHi, holeLen int, allowDup, fullRef bool) {
 	op = zz20Pick("op", op, 5)
 	shape = zz20Pick("shape", shape, 3)
 	a := vrt.IntRange("a", aLo, aHi)
 	h := zz20Hole(holeLen)
 	b := zz20Deep(shape, 0, a, h)
-	want := zzspec.ValidText(b, true, !allowDup, zz20Max)
-	// without a depth limit the tower is valid iff its innermost level around the hole is
-	wantNoLimit := zzspec.ValidText(zz20Deep(shape, a-1, a, h), true, !allowDup, zz20Max)
-	vrt.Assert("C20/depth/spec-sanity", !want || wantNoLimit)
+	want, wantNoLimit := zz20Want(b, shape, a, h, true, !allowDup, fullRef)
 	if want {
 		vrt.Cover("accept")
 	} else if wantNoLimit {
@@ -148,7 +161,7 @@ func VerifC20DepthRead(op, shape, aLo, aHi, holeLen int, allowDup bool) {
 // VerifC20DepthFormat: the same towers through the formatting entry points
 // (reformatObject/reformatArray): op 0 Value.Format, 1 Value.Compact, 2 AppendFormat,
 // 3 Encoder.WriteValue, 4 k=a/2 WriteToken pushes then WriteValue of the remaining tower.
-func VerifC20DepthFormat(op, shape, aLo, aHi, holeLen int, allowDup bool) {
+func VerifC20DepthFormat(op, shape, aLo, aHi, holeLen int, allowDup, fullRef bool) {
 	op = zz20Pick("op", op, 5)
 	shape = zz20Pick("shape", shape, 3)
 	a := vrt.IntRange("a", aLo, aHi)
@@ -159,9 +172,7 @@ func VerifC20DepthFormat(op, shape, aLo, aHi, holeLen int, allowDup bool) {
 	if op == 1 {
 		uniq, strict = false, false
 	}
-	want := zzspec.ValidText(b, strict, uniq, zz20Max)
-	wantNoLimit := zzspec.ValidText(zz20Deep(shape, a-1, a, h), strict, uniq, zz20Max)
-	vrt.Assert("C20/depth/spec-sanity", !want || wantNoLimit)
+	want, wantNoLimit := zz20Want(b, shape, a, h, strict, uniq, fullRef)
 	if want {
 		vrt.Cover("accept")
 	} else if wantNoLimit {
